@@ -312,16 +312,46 @@ func (o *Once) Do(f func()) {
 	f()
 }
 
+// OnceFunc, OnceValue, OnceValues: like the real ones, if f panics every call panics with the same
+// value (and f still runs only once).
 func OnceFunc(f func()) func() {
 	var o Once
-	return func() { o.Do(f) }
+	var p any
+	valid := false
+	return func() {
+		o.Do(func() {
+			defer func() {
+				if !valid {
+					p = recover()
+				}
+			}()
+			f()
+			valid = true
+		})
+		if !valid {
+			panic(p)
+		}
+	}
 }
 
 func OnceValue[T any](f func() T) func() T {
 	var o Once
 	var v T
+	var p any
+	valid := false
 	return func() T {
-		o.Do(func() { v = f() })
+		o.Do(func() {
+			defer func() {
+				if !valid {
+					p = recover()
+				}
+			}()
+			v = f()
+			valid = true
+		})
+		if !valid {
+			panic(p)
+		}
 		return v
 	}
 }
@@ -330,8 +360,21 @@ func OnceValues[T1, T2 any](f func() (T1, T2)) func() (T1, T2) {
 	var o Once
 	var v1 T1
 	var v2 T2
+	var p any
+	valid := false
 	return func() (T1, T2) {
-		o.Do(func() { v1, v2 = f() })
+		o.Do(func() {
+			defer func() {
+				if !valid {
+					p = recover()
+				}
+			}()
+			v1, v2 = f()
+			valid = true
+		})
+		if !valid {
+			panic(p)
+		}
 		return v1, v2
 	}
 }
